@@ -32,6 +32,8 @@ struct FindConflicts<'a, 'ctx> {
 
 impl<'a> FindConflicts<'a, '_> {
     pub fn find(&mut self, on_type: Option<&'a str>, selection_set: &'a Positioned<SelectionSet>) {
+        #[cfg(async_graphql_verif)]
+        crate::verif_hooks::bump(&crate::verif_hooks::FIND_CONFLICTS);
         for selection in &selection_set.node.items {
             match &selection.node {
                 Selection::Field(field) => {
